@@ -115,6 +115,7 @@ def single_case(b: Batch, state, op, recursive, full, idx, prop="C03", script=No
     import os
 
     cfg = {"seed": idx, "recursive": recursive, "full": full, "n_root": 0, "n_out": 0, "delay": 0.5 if single_step else 0.1, "single_step": single_step,
+           "bg_writer": single_step and op[0] == "rename" and idx % 2 == 0,
            "final_probes": False, "probe_p": 0.0, "mode": "single", "state": sorted(state.items()), "script": [list(op)] if script is None else [list(o) for o in script]}
     h = fshist.History(cfg)
     orig_populate = fshist.Universe.populate
@@ -213,6 +214,7 @@ def run_batch(spec):
             cfg = c01.make_cfg(r, spec["seed"] * 1000003 + spec["j"] * 10007 + n)
             # operations inside directories after they left the tree: nothing of that may be reported (soundness)
             cfg["out_ops"] = r.random() < 0.6
+            cfg["bg_writer"] = r.random() < 0.3
             if n % 3 == 0:
                 cfg["single_step"] = True
                 cfg["delay"] = 0.5
